@@ -1,4 +1,6 @@
 import Gimli.Lemmas.WLine
+import Gimli.Lemmas.LebSigned
+import Gimli.Lemmas.WLineHeader
 /-!
 # C13 — Written line programs read back to exactly the rows that were generated
 
@@ -370,41 +372,40 @@ example :
 
 /-! ## instruction bytes -/
 
-/-- **Every emitted instruction decodes back** — partial. For every header a reader parses from
-the writer's output (`opcode_base = 13`, address size 1/2/4/8, any version, either byte order),
-every instruction the writer can hold whose operands fit its own field types
-(`WInstr.Encodable`), and any following bytes `rest`: C04's `LineInstruction::parse` Model on the
-bytes `LineInstruction::write` emits returns exactly that instruction (file ids made raw) and
-`rest` — incl. the extended-opcode length prefixes of `end_sequence`, `set_address`,
-`set_discriminator`.
-
-Missing for the full statement: for `AdvanceLine(v)` the round trip of the *signed* LEB128 codec
-(`Leb.signed (Leb.encodeS v ++ rest) = ok (v, rest)`) is a hypothesis (`hsig`), because C09 has
-not proved it yet (it is covered there by exhaustive short-string enumeration and the
-differential run; see the `example`s below for concrete values). Every other instruction is
-unconditional. -/
-theorem instr_bytes_roundtrip_partial (h : Params) (hh : WriterHeader h) (i : WInstr)
+/-- **Every emitted instruction decodes back.** For every header a reader parses from the writer's
+output (`opcode_base = 13`, address size 1/2/4/8, any version, either byte order), every
+instruction the writer can hold whose operands fit its own field types (`WInstr.Encodable`: `u8`
+special opcode ≥ 13, `u64` operands, `i64` line advance, a constant address), and any following
+bytes `rest`: C04's `LineInstruction::parse` Model on the bytes `LineInstruction::write` emits
+returns exactly that instruction (file ids made raw) and `rest` — incl. the extended-opcode
+length prefixes of `end_sequence`, `set_address`, `set_discriminator` and the signed LEB128 operand
+of `advance_line` (`Leb.signed_roundtrip`, proved in `Lemmas/LebSigned.lean`). -/
+theorem instr_bytes_roundtrip (h : Params) (hh : WriterHeader h) (i : WInstr)
     (henc : i.Encodable h.version)
-    (hsig : ∀ v rest, i = .advanceLine v → Leb.signed (Leb.encodeS v ++ rest) = .ok (v, rest))
     (bs : Bytes) (hw : writeInstr h.endian h.version h.addrSize i = .ok bs) (rest : Bytes) :
-    parseInstr h (bs ++ rest) = .ok (i.toInstr h.version, rest) :=
-  instr_bytes_roundtrip_aux h hh i henc hsig bs hw rest
+    parseInstr h (bs ++ rest) = .ok (i.toInstr h.version, rest) := by
+  refine instr_bytes_roundtrip_aux h hh i henc ?_ bs hw rest
+  intro v rest' hv
+  subst hv
+  exact Leb.signed_roundtrip v henc.1 henc.2 rest'
 
-/-- the same for a whole program: running the reader on the written bytes is running it on the
-instruction list (so `generate_row_correct` and `sequence_roundtrip` speak about the bytes) -/
-theorem program_bytes_roundtrip_partial (h : Params) (hh : WriterHeader h) (is : List WInstr)
+/-- the same for a whole program: `header.instructions()` on the written bytes is the instruction
+list that was written, and running the reader on the bytes is running it on that list — so
+`generate_row_correct` and `sequence_roundtrip` speak about the emitted **bytes** -/
+theorem program_bytes_roundtrip (h : Params) (hh : WriterHeader h) (is : List WInstr)
     (henc : ∀ i ∈ is, i.Encodable h.version)
-    (hsig : ∀ v rest, WInstr.advanceLine v ∈ is → Leb.signed (Leb.encodeS v ++ rest) = .ok (v, rest))
     (bs : Bytes) (hw : writeInstrs h.endian h.version h.addrSize is = .ok bs) :
     decodeAll h (bs.length + 1) bs = .ok (is.map (WInstr.toInstr h.version)) ∧
     trace h bs = traceInstrs h (Row.new h) (is.map (WInstr.toInstr h.version)) := by
-  have hd := writeInstrs_decodeAll h hh is henc hsig bs hw (bs.length + 1) (by omega)
+  have hd := writeInstrs_decodeAll h hh is henc
+    (fun v rest hv => by
+      have := henc _ hv
+      exact Leb.signed_roundtrip v this.1 this.2 rest) bs hw (bs.length + 1) (by omega)
   refine ⟨hd, ?_⟩
   unfold trace
   rw [traceLoop_decodeAll h _ _ _ _ hd, reset_new]
 
-/-- the signed LEB128 hypothesis holds at the boundaries of every encoded length class that fits
-a few bytes, for any tail -/
+/-- concrete signed LEB128 round trips (instances of `Leb.signed_roundtrip`) -/
 example : ∀ v ∈ [(0 : Int), 1, -1, 63, 64, -64, -65, 300, -300, 8191, 8192, -8192, -8193,
     2 ^ 62, -(2 ^ 62), 2 ^ 63 - 1, -(2 ^ 63)],
     Leb.signed (Leb.encodeS v ++ [0xaa, 0x01]) = .ok (v, [0xaa, 0x01]) := by decide
@@ -700,6 +701,50 @@ theorem sequence_roundtrip (m : Mode) (en : Endian) (format : Format) (addrSize 
     rw [hp1prev, ← h0]
     exact htr3 rest
 
+
+/-! ## the unit header, versions 2–4 -/
+
+/-- **A written version 2–4 header parses back** — partial (versions 2–4 with inline strings; the
+version 5 tables with their entry formats and the `.debug_str`/`.debug_line_str` forms are covered
+by the byte-exact correspondence and the read-back oracle only). For every program whose
+parameters a reader accepts (`EncReadable`: byte-sized non-zero min_inst_len / max_ops /
+line_range, `max_ops = 1` before version 4), whose include directories (all but the working
+directory, which is not emitted) and file names are non-empty inline strings without NUL, whose
+file fields fit `u64`, and for which the three fallible writer steps succeed (instruction
+serialisation, `header_length`, `unit_length`): `LineProgram::write` returns exactly
+`unit_length ++ version ++ header_length ++ parameters ++ tables ++ instructions`, and C04's
+`LineProgramHeader::parse` on those bytes returns the writer's parameters, the include
+directories in order, **the file table entry for entry (name, directory index, timestamp, size)**,
+and the instruction bytes as the program. -/
+theorem header_written_parses_partial (en : Endian) (m : Mode) (p : Prog) (uver : Nat) (tabs : Tabs)
+    (cd cn : Option Bytes) (prog hl il : Bytes)
+    (he : EncReadable p.enc)
+    (hds : ∀ d ∈ p.dirs.drop 1, InlineOk d) (hfs : ∀ f ∈ p.files, InlineOk f.name ∧ FileFits f)
+    (hprog : writeInstrs en p.enc.version p.addrSize p.instrs = .ok prog)
+    (hhl : Ints.writeUdata en
+      (headerBodyV4 p.enc (dirBytes (p.dirs.drop 1) ++ 0 :: (fileBytes p.files ++ [0]))).length
+      p.format.wordSize = .ok hl)
+    (hil : Ints.writeInitialLength en p.format
+      (Ints.toBytes en 2 p.enc.version ++ hl ++
+        headerBodyV4 p.enc (dirBytes (p.dirs.drop 1) ++ 0 :: (fileBytes p.files ++ [0])) ++ prog).length = .ok il)
+    (hsmall : (Ints.toBytes en 2 p.enc.version ++ hl ++
+        headerBodyV4 p.enc (dirBytes (p.dirs.drop 1) ++ 0 :: (fileBytes p.files ++ [0])) ++ prog).length < 2 ^ 64) :
+    ∃ bytes ul hdl, p.write en m uver p.addrSize tabs = .ok (bytes, tabs) ∧
+      parseHeader en p.addrSize cd cn bytes =
+        .ok { p := readerParams en p.format p.addrSize p.enc, unitLength := ul, headerLength := hdl,
+              dirFormat := [], dirs := (p.dirs.drop 1).map (fun d => AttrVal.string d.val),
+              fileFormat := [], files := p.files.map FileEnt.toEntry, program := prog, compDir := cd,
+              compFile := cn.map fun n => { path := .string n, dirIndex := 0, timestamp := 0, size := 0,
+                                             md5 := List.replicate 16 0, source := none } } := by
+  obtain ⟨hv2, hv4, _, _, _, _, hv3, _⟩ := he
+  refine ⟨_, (Ints.toBytes en 2 p.enc.version ++ hl ++
+      headerBodyV4 p.enc (dirBytes (p.dirs.drop 1) ++ 0 :: (fileBytes p.files ++ [0])) ++ prog).length,
+    (headerBodyV4 p.enc (dirBytes (p.dirs.drop 1) ++ 0 :: (fileBytes p.files ++ [0]))).length,
+    write_v4_layout en m p uver p.addrSize tabs hv2 hv4 rfl (fun h => hv3 (by omega)) hds
+    (fun f hf => (hfs f hf).1) prog hl il hprog hhl hil, ?_⟩
+  exact parseHeader_v4_layout en p.format p.addrSize cd cn p.enc ⟨hv2, hv4, ‹_›, ‹_›, ‹_›, ‹_›, hv3, ‹_›⟩
+    (p.dirs.drop 1) p.files prog il hl hds hfs hhl hil hsmall
+
 /-! ## non-vacuity: the hypotheses are satisfiable, and every opcode choice occurs -/
 
 instance decChainOk (e : Enc) (addrSize base : Nat) : (prev : WRow) → (rows : List WRow) →
@@ -752,4 +797,31 @@ example : EndOk enc4 8 0x1000 (lastRow (WRow.initial enc4) rowsEx) (lastRow (WRo
 example : (writeSequence .debug prog0 0x1000 rowsEx 48).map (·.instrs) =
     .ok [.setAddress (some 0x1000), .special 22, .setBasicBlock, .setColumn 2, .advancePc 40, .special 16,
          .advancePc 8, .endSequence] := by decide
+
+/-- a version 4 program with two include directories and two files -/
+def progEx : Prog :=
+  { prog0 with
+    dirs := [⟨.string, [0x2f, 0x77]⟩, ⟨.string, [0x73]⟩],
+    files := [{ name := ⟨.string, [0x61]⟩, dir := 1, info := { FileInfo.default with timestamp := 7, size := 300 } },
+              { name := ⟨.string, [0x62]⟩, dir := 0, info := FileInfo.default }],
+    instrs := [.setAddress (some 0x1000), .special 22, .advancePc 8, .endSequence] }
+
+instance (e : Enc) : Decidable (EncReadable e) := by unfold EncReadable; infer_instance
+
+example : EncReadable progEx.enc := by decide
+/-- what the reader gets from the written header of `progEx` -/
+def progExReadBack : Option Header :=
+  match progEx.write .little .debug 4 8 { lineStrings := [], strings := [] } with
+  | .ok (bytes, _) =>
+    match parseHeader .little 8 none none bytes with
+    | .ok hd => some hd
+    | _ => none
+  | _ => none
+
+example : progExReadBack.map (·.p) = some (readerParams .little .dwarf32 8 enc4) := by decide
+example : progExReadBack.map (·.dirs) = some [.string [0x73]] := by decide
+example : progExReadBack.map (fun hd => hd.files.map (fun f => (f.path, f.dirIndex, f.timestamp, f.size))) =
+    some [(.string [0x61], 1, 7, 300), (.string [0x62], 0, 0, 0)] := by decide
+example : progExReadBack.map (·.program) =
+    some [0, 9, 2, 0, 0x10, 0, 0, 0, 0, 0, 0, 22, 2, 8, 0, 1, 1] := by decide
 end Gimli.Props.C13
